@@ -212,11 +212,12 @@ func genEchHS(r *Rng, i int, tier string) string {
 }
 
 // echPreOpts turns a pre-handshake op sequence into runHS options:
-//   plain       UClient(id).Handshake()
-//   build1/2    BuildHandshakeState() once / twice (inspecting the hello), then Handshake()
-//   remarshal   BuildHandshakeState(), an explicit MarshalClientHello(), then Handshake()
-//   specpin     HelloCustom + a spec of that id whose SNIExtension already names Config.ServerName
-//   specshared  one spec object applied first to a non-ECH connection to the same host, then here
+//
+//	plain       UClient(id).Handshake()
+//	build1/2    BuildHandshakeState() once / twice (inspecting the hello), then Handshake()
+//	remarshal   BuildHandshakeState(), an explicit MarshalClientHello(), then Handshake()
+//	specpin     HelloCustom + a spec of that id whose SNIExtension already names Config.ServerName
+//	specshared  one spec object applied first to a non-ECH connection to the same host, then here
 func echPreOpts(pre string, id tls.ClientHelloID, sn string) (o HSOpts, note string) {
 	o = HSOpts{ID: id}
 	note = "ok"
